@@ -618,7 +618,7 @@ pub fn scenario_main(idx: usize, tier: &str, budget: f64) -> i32 {
 pub fn check(prop: &str, tier: &str) -> i32 {
     let thorough = tier == "thorough";
     let mut run = Run::new(prop, tier, "model_checking");
-    let cap_secs: f64 = std::env::var("VERIF_CAP_SECS").ok().and_then(|s| s.parse().ok()).unwrap_or(if thorough { 840.0 } else { 30.0 });
+    let cap_secs: f64 = std::env::var("VERIF_CAP_SECS").ok().and_then(|s| s.parse().ok()).unwrap_or(if thorough { 400.0 } else { 30.0 });
     let scs = scenarios(thorough);
     let exe = std::env::current_exe().unwrap_or_else(|e| machinery(&format!("current_exe: {e}")));
     // one child process per scenario, all in parallel
